@@ -2,7 +2,7 @@
    container operations that use them (x in list, list.remove, set(list)).
    T = coordinate type, absdiff a b = abs(a - b), tol = 1e-10, h = hash of the
    vector tuple (an oracle function of the vector only). *)
-From Coq Require Import List Bool ZArith.
+From Coq Require Import List Bool ZArith Arith.
 Import ListNotations.
 
 Section IndEq.
@@ -25,7 +25,12 @@ Section IndEq.
   Definition eqb_ind (v w : list T) : bool :=
     match ind_eq v w with Some true => true | _ => false end.
 
-  (* individuals as seen by containers: (id, vector) with hash h vector *)
+  (* individuals as seen by containers: (object, vector) with hash h vector.  The first component
+     is the identity of the Python object (what `is` compares), NOT the attribute Individual.id.
+     The model individual has no other component: Individual.id, costs, costs_signed, state,
+     population_id, algorithm_id, features, custom, parents, children and the class of the object
+     do not exist here, so every result below is independent of them by construction (the
+     correspondence varies all of them on the real objects). *)
   Variable h : list T -> Z.
   Definition indiv : Type := (nat * list T)%type.
   Definition ivec (x : indiv) := snd x.
@@ -57,4 +62,27 @@ Section IndEq.
   (* the duplicate test of GeneticAlgorithm.generate: any(child == o for o in offsprings) *)
   Definition child_repeated (child : indiv) (offs : list indiv) : bool :=
     existsb (fun o => eqb_ind (ivec child) (ivec o)) offs.
+
+  (* GeneticAlgorithm.generate (algorithm_genetic.py 35-73), the part that decides which children
+     survive.  The selector / crossover / mutator results are an input: the stream of child pairs
+     (child1, child2) in the order the loop produces them.  One pass of the while body:
+        if len(offsprings) == 0: offsprings.append(child1)
+        if any(child1 == o for o in offsprings) and len(offsprings) < N: pass
+        else: offsprings.append(child1)
+        if any(child2 == o for o in offsprings) and len(offsprings) < N: pass
+        elif len(offsprings) < N: offsprings.append(child2)                                   *)
+  Definition gen_step (N : nat) (offs : list indiv) (c1 c2 : indiv) : list indiv :=
+    let offs1 := match offs with [] => [c1] | _ => offs end in
+    let offs2 := if child_repeated c1 offs1 && (length offs1 <? N)%nat then offs1 else offs1 ++ [c1] in
+    if child_repeated c2 offs2 && (length offs2 <? N)%nat then offs2
+    else if (length offs2 <? N)%nat then offs2 ++ [c2] else offs2.
+
+  (* while len(offsprings) < N: ...   Result: the offspring list and the number of pairs of the
+     stream that were not consumed (a stream that ends early leaves len < N). *)
+  Fixpoint generate (N : nat) (pairs : list (indiv * indiv)) (offs : list indiv) : list indiv * nat :=
+    if (N <=? length offs)%nat then (offs, length pairs)
+    else match pairs with
+         | [] => (offs, 0%nat)
+         | (c1, c2) :: ps => generate N ps (gen_step N offs c1 c2)
+         end.
 End IndEq.
